@@ -46,8 +46,12 @@ inline const char* cat_name(int c) {
                             "create", "severity", "passed-predecessor"};
   return n[c];
 }
+// After a mismatch of these categories the case ends: the real objects and the model may no longer agree on what is
+// alive. A wrong is_satisfied()/is_saturated() answer (CAT_FLAGS) is a pure observation; the case goes on, so that a
+// check whose property does not speak about the flags still sees what the same defect does to its own observables
+// (e.g. a lost lower bound: wrong flag at once - C03 - and no shortfall report at the end of life - C04).
 inline bool cat_state_affecting(int c) {
-  return c == CAT_OUTCOME || c == CAT_FLAGS || c == CAT_COMPLETED || c == CAT_CALL_REPORTS || c == CAT_EOL_REPORTS ||
+  return c == CAT_OUTCOME || c == CAT_COMPLETED || c == CAT_CALL_REPORTS || c == CAT_EOL_REPORTS ||
          c == CAT_SEQ_DESTROY || c == CAT_DW || c == CAT_CLAUSES || c == CAT_CREATE || c == CAT_PASSED;
 }
 
